@@ -155,7 +155,7 @@ func checkC19(c *UploadCase) (*ev.Failure, string) {
 	}
 	mapJSON, _ := json.Marshal(fm)
 	body, ct := buildMultipart([][2]string{{"operations", string(opsJSON)}, {"map", string(mapJSON)}}, files)
-	resp := gwx.Post(gw, body, ct, 15*time.Second)
+	resp := gwx.Post(gw, body, ct, 120*time.Second)
 	if resp.TimedOut {
 		return ev.Failf("hang", "no response"), ""
 	}
